@@ -1227,12 +1227,31 @@ def r_probe_index(F, V):
         tags = [i for i, t in ib.calls() if (callee_path(t) or "").endswith("Group::match_tag")]
         if not gstores or not tags:
             R.undec("RawIterHashInner::next: store of self.group (%d) / match_tag (%d) not found" % (len(gstores), len(tags)))
-        elif all(any(ib.dominates(g, c) or g == c for c in tags) for g in gstores):
+        elif all(any(ib.dominates(g, c) or g == c for c in tags) for g in gstores) or \
+                all(c not in ib.reachable_from_entry_flags(tuple(gstores)) for c in tags):
+            # (second form: the load sits in an inlined helper that reports through a boolean whether it loaded - every feasible
+            # path to the refill passes the load)
             R.inst(key, "the tag match that refills self.bitmask is computed after (dominated by) the load that refills self.group", "ok", True, where(ib, bb=gstores[0]))
         else:
             R.violation(key, ib, "self.bitmask is refilled from the group of the PREVIOUS probe step (the load into self.group does not precede the match_tag): iter_hash replays the first group's matches "
                         "at later positions and never yields matches of later groups", line=line_of(ib, bb=gstores[0]))
             R.inst(key, "bitmask computed from the stale group", "violation", True, where(ib, bb=gstores[0]))
+    # the same for every other method of the hash cursor that produces indices (a `fold` of its own, ..): matches come from the
+    # stored bitmask until a new group has been loaded; re-matching the stored group replays what next() already handed out
+    for pth, ob in F.bodies.items():
+        if pth.startswith("raw::<RawIterHashInner as Iterator>::") and pth != "raw::<RawIterHashInner as Iterator>::next" and "{closure" not in pth:
+            tg = [i for i, t in ob.calls() if (callee_path(t) or "").endswith("Group::match_tag")]
+            gs = [i for i, k, s in ob.stmts() if s["k"] == "assign" and (last_field(s["p"]) or {}).get("name") == "group" and ob.root_of_place(s["p"])[0] == 1]
+            if not tg:
+                continue
+            key = pth + "|bitmask-of-fresh-group"
+            early = [c for c in tg if c in ob.reachable_from_entry_flags(tuple(gs))]
+            if early:
+                R.violation(key, ob, "%s computes tag matches of the stored group before any new group has been loaded: the bits that next() already consumed from self.bitmask are produced again "
+                            "(iter_hash yields elements twice; iter_hash_mut hands out the same &mut twice)" % pth.split("::")[-1], line=line_of(ob, bb=early[0]))
+                R.inst(key, "stored group re-matched", "violation", True, where(ob, bb=early[0]))
+            else:
+                R.inst(key, "tag matches are only computed for freshly loaded groups; the stored bitmask is continued", "ok", True, where(ob, bb=tg[0]))
     R.floor("probe index sites", n, 4)
     return R
 
